@@ -73,3 +73,23 @@ package defaults
 //@   ensures validate_exact: !panics ==> ((len(result) == 0) <=>
 //@       ((forall k int :: (0 <= k && k < len(h.Ruleset)) ==> rule_ok(h, k)) &&
 //@        (forall j int :: (0 <= j && j < len(h.ConfirmFields) - 1 && j % 2 == 0) ==> confirm_ok(h, j))))
+//@
+//@ -- C19: what the default body reader hands to register.Post (the mechanisms "whitelist
+//@ -- filtering" and "rule evaluation" of the property meet here: the validator carries the
+//@ -- rule set and confirm fields configured for the page, the password and pid are the
+//@ -- submitted ones, and the extra fields are whitelisted keys with their submitted values).
+//@ spec in_list(l, q) := exists j int :: 0 <= j && j < len(l) && elem(l, j) == q
+//@ func (HTTPBodyReader).Read
+//@   property C19
+//@   invariant loop#1 only_whitelisted: forall q string :: maphas(arbitrary, q) ==> (in_list(whitelist, q) && mapget(arbitrary, q) == mapget(values, q))
+//@   invariant loop#2 only_whitelisted_inner: rangeindex >= -1 &&
+//@       (forall q string :: maphas(arbitrary, q) ==> (in_list(whitelist, q) && mapget(arbitrary, q) == mapget(values, q)))
+//@   ensures register_validator: (page == "register" && result.1 == nil) ==> (dyntype(result.0) == "UserValues" &&
+//@       dyn(result.0, "HTTPFormValidator.Ruleset") == mapget(h.Rulesets, page) &&
+//@       dyn(result.0, "HTTPFormValidator.ConfirmFields") == mapget(h.Confirms, page) &&
+//@       dyn(result.0, "Password") == mapget(dyn(result.0, "HTTPFormValidator.Values"), "password") &&
+//@       dyn(result.0, "PID") == mapget(dyn(result.0, "HTTPFormValidator.Values"), ite(h.UseUsername, "username", "email")))
+//@   ensures register_extra_fields: (page == "register" && result.1 == nil) ==>
+//@       (forall q string :: maphas(dyn(result.0, "Arbitrary"), q) ==>
+//@           (in_list(mapget(h.Whitelist, page), q) && mapget(dyn(result.0, "Arbitrary"), q) == mapget(dyn(result.0, "HTTPFormValidator.Values"), q)))
+
